@@ -7,13 +7,15 @@ from ..rules import scenario as SC
 from ..rules import timeouts as TO
 
 EXPLANATION = (
-    "Static analysis (points-to + CFG + lock context). Decides necessary conditions of deadlock freedom, each "
-    "schedule-independent: no lost wake-up (R-WAKE), wake-up pipe used only under its lock (R-WAKE-LOCK), single "
-    "owner resolves a future / nothing dropped unresolved (R-OWN-RESOLVE, R-DROP-RESOLVES), the manager leaves only "
-    "when nothing is pending (R-MGR-EXIT), fields nulled by shutdown() are never dereferenced ungated (R-NULLED), "
-    "the manager needs no live executor to make progress (R-MGR-SELF), polling loops can end (R-POLL), the "
-    "lock-order / wait-for graph is acyclic (R-LOCK-ORDER), every blocking call of the manager has its enabling "
-    "fact (R-BLOCK-MGR). It does NOT decide liveness as such (fairness, OS behaviour, crash inside the shutdown phase)."
+    'Static analysis (points-to + CFG + lock context). Decides necessary conditions of deadlock freedom, each '
+    'schedule-independent: no lost wake-up (R-WAKE), wake-up pipe used only under its lock (R-WAKE-LOCK), single '
+    'owner resolves a future / nothing dropped unresolved (R-OWN-RESOLVE, R-DROP-RESOLVES), the manager leaves only '
+    'when nothing is pending (R-MGR-EXIT), fields nulled by shutdown() are never dereferenced ungated (R-NULLED), the '
+    'manager needs no live executor to make progress (R-MGR-SELF), polling loops can end (R-POLL), the lock-order / '
+    'wait-for graph is acyclic (R-LOCK-ORDER), every blocking call of the manager has its enabling fact '
+    '(R-BLOCK-MGR). It does NOT decide liveness as such (fairness, OS behaviour, crash inside the shutdown phase). '
+    'Also decided: every clean exit of a worker stops its nested executors (R-EXIT-NESTED); warnings and table '
+    'lookups on the manager thread cannot kill it (R-MGR-TOTAL).'
 )
 
 
